@@ -124,6 +124,14 @@ func initTimeExternals() {
 		},
 		"(time.Time).Add": func(fr *frame, a []value) value {
 			i := fr.i
+			if d, ok := a[1].(sv); ok {
+				// a symbolic duration that is visibly a whole number of seconds (x * c, 1e9 | c)
+				// is added to the seconds word without any division
+				if secs := i.wholeSeconds(d); secs != nil {
+					t := i.timeOf(a[0])
+					return i.timeValue(vtime{i.i64(token.ADD, t.sec, secs), t.nsec})
+				}
+			}
 			return i.timeValue(i.timeAddNs(i.timeOf(a[0]), i.durArg(a[1], "Time.Add duration")))
 		},
 		"(time.Time).Sub": func(fr *frame, a []value) value {
@@ -295,3 +303,23 @@ func extSetNow(fr *frame, args []value) value {
 }
 
 var _ = term.Const
+
+// wholeSeconds recognises d = x * c with c a multiple of 1e9 and returns x * (c/1e9), else nil.
+func (i *interpreter) wholeSeconds(d sv) value {
+	t := d.t
+	if t.Op != term.BvMul || t.W != 64 {
+		return nil
+	}
+	for k := 0; k < 2; k++ {
+		c, x := t.A[k], t.A[1-k]
+		if c.Op == term.Const && c.V != 0 && int64(c.V) > 0 && int64(c.V)%1e9 == 0 {
+			q := int64(c.V) / 1e9
+			conc := asInt64(d.c) / 1e9
+			if asInt64(d.c)%1e9 != 0 {
+				return nil
+			}
+			return i.mk(conc, i.tb.Bin(term.BvMul, x, i.tb.BV(64, uint64(q))))
+		}
+	}
+	return nil
+}
